@@ -236,7 +236,7 @@ def main():
     outdir = "/verif/mutants"
     os.makedirs(outdir, exist_ok=True)
     for f in os.listdir(outdir):
-        if f.endswith(".diff"):
+        if f.endswith(".diff") and "hand-written" not in open(os.path.join(outdir, f)).read(400):
             os.remove(os.path.join(outdir, f))
     env = dict(os.environ, GOFLAGS="-mod=mod", GOPROXY="off", GOSUMDB="off", GOTOOLCHAIN="local")
     bad = 0
